@@ -101,6 +101,16 @@ def eigen_shift(ctx, rep, rule: str) -> None:
     lname = d.targets[0].elts[0].id if isinstance(d.targets[0], ast.Tuple) else None
     decomposed = _norm(d.value.args[0]) if d.value.args else None
     mid = body[dec[0] + 1 : powi[0]]
+    # plain aliases of the eigenvalue tensor (`x = L`; an in-place update through x updates L: same tensor object) are
+    # folded into L before the scalar walk, which would otherwise treat them as separate numbers
+    import copy as _copy
+
+    from ..canon import _Rename
+
+    aliases = {s.targets[0].id for s in mid if isinstance(s, ast.Assign) and len(s.targets) == 1 and isinstance(s.targets[0], ast.Name) and isinstance(s.value, ast.Name) and s.value.id == lname}
+    if aliases:
+        mid = [s for s in mid if not (isinstance(s, ast.Assign) and len(s.targets) == 1 and isinstance(s.targets[0], ast.Name) and s.targets[0].id in aliases and isinstance(s.value, ast.Name))]
+        mid = [_Rename({a: lname for a in aliases}).visit(_copy.deepcopy(s)) for s in mid]
     # which matrix is decomposed on each branch (ridge or raw)?
     ridge_defs = {}
     for s in A.walk_no_nested(fi.node):
